@@ -132,7 +132,7 @@ __CPROVER_decreases(g_q - g_i)
 """
 
 DECODE_LOOP = """
-__CPROVER_assigns(offset, verif_exc, g_wit, ret->size, __CPROVER_object_whole(ret->data))
+__CPROVER_assigns(@LOCALS@, verif_exc, g_wit, ret->size, __CPROVER_object_whole(ret->data))
 __CPROVER_loop_invariant(verif_exc == 0 && offset <= end_offset && (offset & 3) == 0)
 __CPROVER_loop_invariant(ret->size == 3 * (offset >> 2) - ((offset == end_offset && offset != 0) ? DEC_PADN : 0))
 __CPROVER_loop_invariant(4 * g_blk < offset ==> DEC_OK)
@@ -240,7 +240,7 @@ def encoding_groups(ctx):
                     cbmc_flags=['--unwind', '6', '--unwinding-assertions'], timeout=300, stage1=30, replay=RP('base64_encode'),
                     clause_note='the same contract on the loop-unwound code: independent of the loop invariant'))
     gs.append(Group(name='Encoding.base64_decode.block', harness=H, entry='h_base64_decode_block', function='base64_decode (loop body: one block)',
-                    enforce='base64_decode_block', defines=D, timeout=300, stage1=20,
+                    enforce='base64_decode_block', defines=D, timeout=300, stage1=20, covered_by='Encoding.base64_decode',
                     clause_note='contracts/C11_encoding.h: no exception <=> the block is acceptable (B64_BLOCK_OK); appended octets equal RFC 4648',
                     replay=RP('base64_decode_block')))
     gs.append(Group(name='Encoding.base64_decode', harness=H, entry='h_base64_decode', function='base64_decode',
